@@ -640,11 +640,12 @@ def check_C04(tier, seed):
         ps += run.export("GenQuery", f"G{nv}-leaves", "PROG", constants=dict(G="G12", NV=nv, LeafLimit=60, MaxLeaves=1, MaxNot=1,
                                                                             NeedNot=False), count=False)
         progs[nv] = ps
+    user_code = {nv: _with_user_code(progs[nv]) for nv in progs}
     for b in behs:
         needs_pred = any(o["op"] == "raised" for o in b)
         for _ in range((2 if needs_pred else 1) if quick else 3):
             nv = rng.choice((1, 2))
-            pool = _with_user_code(progs[nv]) if needs_pred and rng.random() < 0.8 else progs[nv]
+            pool = user_code[nv] if needs_pred and rng.random() < 0.8 else progs[nv]
             W, doms = _world_and_doms(rng, nv, quick)
             qs = [mk_query(rng.choice(pool), doms), mk_query(rng.choice(progs[nv]), doms)]
             qc.add(W, qs, _session_events(b, 2), share_vars=rng.random() < 0.7)
